@@ -2,10 +2,12 @@
    ExtrOcamlBasic only: bool, option, list, prod, unit, sumbool map to OCaml's; Z, N, positive,
    nat stay the extracted inductives.  No Extract Constant of ours. *)
 From Coq Require Import Extraction ExtrOcamlBasic.
-From KV Require Import Base Params ParamsProofs.
+From KV Require Import Base Params ParamsProofs Weave WeaveProofs WeaveCheck.
 Extraction Language OCaml.
 Set Extraction Optimize.
 Extraction "../ocaml/kvmodel.ml"
   f32_ge0 f32_of_Z isalpha ispunct isspace iscntrl toupper
   init select set_aln_type cli_args p_gpo pset_defaults
-  fits doc_params.
+  fits doc_params
+  expand update_gaps add_gap_info mirror_path make_seq merge_step init_wstate run_merges final_rows op_kind
+  kpath_wfb ops_fitb integrity_b subalignment_b strip_allgap degap w_gaps w_sip.
